@@ -105,7 +105,24 @@ RandExpr(d) == IF d = 0 THEN L(RandomElement(Leaves))
                       [] RandomElement(1..4) = 1 -> N(RandExpr(d - 1))
                       [] RandomElement(1..2) = 1 -> B("and", RandExpr(d - 1), RandExpr(d - 1))
                       [] OTHER -> B("or", RandExpr(d - 1), RandExpr(d - 1))
-Chosen == IF Depth >= 3 THEN {RandExpr(Depth) : i \in 1..NSample}
+\* flat chains x1 op1 x2 op2 x3 op3 x4 as TypeScript groups them (&& binds tighter than ||, both associate to the left); every
+\* operator pattern, leaves drawn at random, some negated.  Printed with minimal parentheses they contain none.
+AndFold(xs) == LET RECURSIVE F(_, _)
+                   F(acc, i) == IF i > Len(xs) THEN acc ELSE F(B("and", acc, xs[i]), i + 1)
+               IN F(xs[1], 2)
+RECURSIVE Groups(_, _, _, _)
+\* splits leaves ls at the "or" operators of ops; cur = the current and-group
+Groups(ls, ops, i, cur) == IF i > Len(ops) THEN <<AndFold(cur)>>
+                           ELSE IF ops[i] = "or" THEN <<AndFold(cur)>> \o Groups(ls, ops, i + 1, <<ls[i + 1]>>)
+                           ELSE Groups(ls, ops, i + 1, Append(cur, ls[i + 1]))
+OrFold(gs) == LET RECURSIVE F(_, _)
+                  F(acc, i) == IF i > Len(gs) THEN acc ELSE F(B("or", acc, gs[i]), i + 1)
+              IN F(gs[1], 2)
+Chain(ls, ops) == OrFold(Groups(ls, ops, 1, <<ls[1]>>))
+RandLeaf == IF RandomElement(1..4) = 1 THEN N(L(RandomElement(Leaves))) ELSE L(RandomElement(Leaves))
+Chains == UNION {{Chain([i \in 1..(n + 1) |-> RandLeaf], ops) : <<ops, k>> \in [1..n -> {"and", "or"}] \X (1..6)} : n \in 3..4}
+
+Chosen == IF Depth = 0 THEN Chains ELSE IF Depth >= 3 THEN {RandExpr(Depth) : i \in 1..NSample}
           ELSE IF NSample = 0 THEN Exprs(Depth) ELSE RandomSubset(NSample, Exprs(Depth))
 Init == e \in Chosen /\ vi \in 1..NVariants /\ done = FALSE
 Next == /\ ~done /\ done' = TRUE /\ UNCHANGED <<e, vi>>
